@@ -172,6 +172,14 @@ func GenSpec(r *Rng, seedPool int, big bool) BlkSpec {
 	if kind == "id" {
 		// identity CIDs: empty, short, and long enough to exceed a 40-byte index CID limit
 		size = Pick(r, []int{0, 3, 20, 60, 100})
+	} else if kind != "idsha" && kind != "shasha" && r.Chance(1, 14) {
+		// a section (CID + data) whose length sits on a power of two +-1: the sizes of buffers and pages
+		cl := MakeBlock(BlkSpec{Kind: kind, Seed: 1, Size: 1}).Cid.ByteLen()
+		p2 := 1 << uint(r.Range(9, 13))
+		if big {
+			p2 = 1 << uint(r.Range(9, 16))
+		}
+		size = p2 - cl + Pick(r, []int{-2, -1, 0, 0, 1})
 	}
 	return BlkSpec{Kind: kind, Seed: uint64(r.Intn(seedPool)), Size: size}
 }
